@@ -461,11 +461,26 @@ def stats (hs : List Hunk) : Nat × Nat × Nat :=
    (hs.map (fun h => (h.lines.filter (fun l => match l with | .rem _ => true | _ => false)).length)).sum,
    hs.length)
 
+/-! ## texts and diffs as byte strings -/
+
+/-- reading a binary file line by line (`readlines()`, `BytesIO(data).readlines()`,
+`osutils.split_lines`): split after every `\n`, only there -/
+def splitNL : Bytes → List Bytes
+  | [] => []
+  | c :: cs =>
+    if c = nlB then [c] :: splitNL cs else
+    match splitNL cs with
+    | [] => [[c]]
+    | l :: ls => (c :: l) :: ls
+
 /-! ## application -/
 
+/-- `PatchConflict(line_no, …)`: the only way `iter_patched_from_hunks` fails.  A
+mismatching line and an old text that ends before or inside a hunk (`next()`
+raising `StopIteration`, reported with `orig_line = b""`) both raise it, with the
+1-based number of the old line that was expected at that point. -/
 inductive ApplyErr where
   | conflict (lineNo : Nat)
-  | exhausted
   deriving DecidableEq, Repr
 
 /-- the inner loop of `iter_patched_from_hunks` over one hunk's lines:
@@ -478,7 +493,7 @@ def applyLines : Nat → List Line → List HLine → Except ApplyErr (List Line
     | .error e => .error e
   | ln, rest, .ctx l :: hl =>
     match rest with
-    | [] => .error .exhausted                       -- next() on an exhausted iterator
+    | [] => .error (.conflict ln)                   -- the text ends inside the hunk
     | x :: xs =>
       if x = l then
         match applyLines (ln + 1) xs hl with
@@ -487,7 +502,7 @@ def applyLines : Nat → List Line → List HLine → Except ApplyErr (List Line
       else .error (.conflict ln)
   | ln, rest, .rem l :: hl =>
     match rest with
-    | [] => .error .exhausted
+    | [] => .error (.conflict ln)
     | x :: xs =>
       if x = l then applyLines (ln + 1) xs hl
       else .error (.conflict ln)
@@ -504,7 +519,7 @@ def applyFrom : Nat → List Line → List Hunk → Except ApplyErr (List Line)
         match applyFrom ln' rest' hs with
         | .error e => .error e
         | .ok r => .ok (rest.take k ++ e ++ r)
-    else .error .exhausted
+    else .error (.conflict (ln + rest.length))      -- the text ends before the hunk starts
 
 def applyHunks (orig : List Line) (hs : List Hunk) : Except ApplyErr (List Line) := applyFrom 1 orig hs
 
